@@ -749,7 +749,7 @@ int main(int argc, char **argv)
             {
                 RunSpec rs{r["planner"], r["space"], r["thr"], r["range"], r["budget"], r["seed"], r["res"]};
                 const Entry *e = findPlanner(reg, rs.planner);
-                if (!e || !supports(*e, rs.space))
+                if (!e || (!supports(*e, rs.space) && !getenv("VERIF_FORCE_SPACE")))
                     continue;
                 if (n++ < skip)
                     continue;
